@@ -3,7 +3,7 @@
    Hypotheses: [1 <= w], [0 < unit]; positions handed to decrease / liquidate are open with non-negative
    collateral (C07's invariant); [0 <= min_collateral_factor] (unsigned) and
    [liq_factor_le] = the liquidation factor, when configured, does not exceed the validation factor. *)
-From GV Require Import lib.Base C01.Model PS.Model PS.Actions PS.Hist C07.Props C09.Proofs C09.Corr.
+From GV Require Import lib.Base C01.Model PS.Model PS.Actions PS.Hist C07.Inv C07.Props C09.Proofs C09.World C09.Corr.
 Open Scope Z_scope.
 
 (* 1. a successful increase never leaves the position liquidatable at the execution prices *)
@@ -54,6 +54,23 @@ Theorem c09_check_collateral_weaker : forall w, 1 <= w -> forall unit, 0 < unit 
   0 <= size -> 0 <= cf2 <= cf1 ->
   check_collateral w unit size cf1 mcv false cv = Ok 0 -> check_collateral w unit size cf2 mcv false cv = Ok 0.
 Proof. intros w Hw unit Hu. exact (check_collateral_weaker w Hw unit Hu). Qed.
+
+(* 6. the same at the level of histories: from any world satisfying C07's invariant (in particular the empty
+      market, c07_init), every operation of every history obeys its gate (World.gate_holds: increase => not
+      liquidatable; decrease / ADL leaving the position open => validated, at worst MinCollateral under the
+      liquidation thresholds; liquidation => was liquidatable and closes everything; ADL => pnl factor was above
+      the limit, strictly decreases, stays above the configured minimum).  The invariant replaces the
+      hypotheses "open position, collateral >= 0" of theorems 2 and 3. *)
+Theorem c09_gate_step : forall w, 1 <= w -> forall unit, 0 < unit -> forall cfg,
+  0 <= pp_min_cf (c_pos cfg) -> liq_factor_le (c_pos cfg) ->
+  forall wd o, world_inv wd -> gate_holds w unit cfg wd o.
+Proof. intros w Hw unit Hu cfg Hcf Hle. exact (gate_step w Hw unit Hu cfg Hcf Hle). Qed.
+
+Theorem c09_gate_history : forall w, 1 <= w -> forall unit, 0 < unit -> forall cfg,
+  0 <= pp_min_cf (c_pos cfg) -> liq_factor_le (c_pos cfg) ->
+  forall ops wd, world_inv wd -> forall pre o post, ops = pre ++ o :: post ->
+  gate_holds w unit cfg (run w unit cfg wd pre) o.
+Proof. intros w Hw unit Hu cfg Hcf Hle. exact (gate_history w Hw unit Hu cfg Hcf Hle). Qed.
 
 (* Known finding MinCollateralAfterPartialDecrease: the literal "a decrease that leaves the position open never
    leaves it liquidatable" is false.  Witness = the crate's own test scenario (u64/9, test configuration):
